@@ -216,8 +216,8 @@ pub fn property() -> Property {
         subs: vec![prop_sub(
             "replies",
             "traffic with reply-eliciting records at every position class: idle (before BeginRequest), inside abandoned preambles (BeginRequest+Params+same-id AbortRequest with body/padding), between Params records, between/inside stream phases; GetValues bodies from a grammar (known, unknown, repeated, non-UTF-8, value-carrying names, truncated trailing pair, empty body), all unknown type bytes, foreign BeginRequest incl. id 0 and unknown roles; 1-byte reads + 2 generated chunkings for the request parser, generated caller schedule with partial consume_output for the stream parser; non-trivial = >=3 replies in the history or a GetValues body split across parse calls; distinct = hash of the case",
-            5_000,
-            300_000,
+            40_000,
+            1_200_000,
             |_| case_strategy(),
             test,
         )],
